@@ -48,6 +48,16 @@ pub fn rec_value<'a>(r: &'a Record) -> (v: Option<&'a [u8]>)
     unimplemented!()
 }
 
+// record.get_value(): a handle on the resident bytes, if any (`Bytes` in the real code; an owned copy here)
+#[verifier::external_body]
+pub fn rec_get_value(r: &Record) -> (v: Option<Vec<u8>>)
+    ensures
+        v is Some <==> rec_resident_spec(r) is Some,
+        v matches Some(b) ==> b@ == rec_resident_spec(r)->Some_0,
+{
+    unimplemented!()
+}
+
 #[verifier::external_body]
 pub fn vec_resize_u8(v: &mut Vec<u8>, new_len: usize, value: u8)
     ensures
